@@ -166,9 +166,9 @@ m("gz_lookup_ignores_auto_gzip", ["C19"], "src/dir.rs",
 m("absolute_check_removed", ["C19"], "src/dir.rs",
   "    if path.as_bytes().first() == Some(&b'/') {\n        return Err(\"path is absolute\");\n    }\n", "")
 
-m("exactlen_counts_first_segment_only", ["C01", "C07"], "src/body.rs",
+m("exactlen_counts_first_segment_only", ["C02", "C07"], "src/body.rs",
   "                let d_len = crate::as_u64(d.remaining());", "                let d_len = crate::as_u64(d.chunk().len());",
-  note="only visible with a non-contiguous Entity::Data type (harness SegBuf)")
+  note="only visible with a non-contiguous Entity::Data type (harness SegBuf); the body of an honest entity fails with an error - C02's subject (complete byte sequence), not C01's, which only speaks of bodies that end cleanly")
 m("multipart_counts_first_segment_only", ["C12"], "src/serving.rs",
   "                        this.remaining -= crate::as_u64(d.remaining());", "                        this.remaining -= crate::as_u64(d.chunk().len());",
   note="only visible with a non-contiguous Entity::Data type")
